@@ -145,6 +145,26 @@ func runOne(t *testing.T, tape *simrt.Tape, datas []*session.Data, hasInitial bo
 		got, err := l.Load(context.Background())
 		simos.Current = nil
 		simrt.Ev("load", "err=%v", err)
+		if crashed {
+			// The next life saves again, undisturbed, on what the crash left behind
+			// (stale temporary files included): that save is complete, so the file
+			// must then hold exactly the new session. A shorter session than any
+			// before, so that left-over bytes show.
+			defer func() {
+				after := &session.Data{DC: 3, Addr: "x", AuthKey: make([]byte, 256), AuthKeyID: make([]byte, 8), Salt: 7}
+				simos.Current = rec
+				defer func() { simos.Current = nil }()
+				l := &session.Loader{Storage: &session.FileStorage{Path: path}}
+				serr := l.Save(context.Background(), after)
+				got2, lerr := l.Load(context.Background())
+				simrt.Ev("save-after-recovery", "save err=%v load err=%v", serr, lerr)
+				if serr != nil || lerr != nil || !reflect.DeepEqual(got2, after) {
+					simrt.Violate("C31", "C31.poisoned", "poisoned "+syscallName(last(disk.Log)),
+						"after a crash at syscall %d (%s) and recovery, an undisturbed save of a new session does not leave that session in the file (save err=%v, load err=%v): what the interrupted save left behind corrupts later saves; syscalls of the interrupted life: %v",
+						disk.Syscalls, last(disk.Log), serr, lerr, disk.Log)
+				}
+			}()
+		}
 
 		// what is acceptable
 		allowed := map[int]bool{}
